@@ -499,6 +499,25 @@ func TestC10(t *testing.T) {
 			n = len(points)
 		}
 		chosen := map[int]bool{}
+		// bucket-level calls (purge, design documents, collection create / drop) touch several rows
+		// or collections in one call: a third of the histories that have one place a kill inside it
+		var inBucketOp []int
+		for _, a := range dry.Acks {
+			if a.I < 0 || a.I >= len(rp.Steps) {
+				continue
+			}
+			switch rp.Steps[a.I].K {
+			case "Purge", "PutDDoc", "DropColl", "CreateColl":
+				for pi, p := range points {
+					if p.Nth > a.HooksBefore[p.Hook] && p.Nth <= a.HooksAfter[p.Hook] {
+						inBucketOp = append(inBucketOp, pi)
+					}
+				}
+			}
+		}
+		if len(inBucketOp) > 0 && chance(rt, 35, "crash.inbucketop") {
+			chosen[inBucketOp[rapid.IntRange(0, len(inBucketOp)-1).Draw(rt, "crashpoint.bucketop")]] = true
+		}
 		for len(chosen) < n {
 			chosen[rapid.IntRange(0, len(points)-1).Draw(rt, "crashpoint")] = true
 		}
